@@ -230,9 +230,15 @@ class PropertyDescriptor(Symbol):
         :param obj: The owner instance.
         :return: The value with a monitored container-type if it is iterable, otherwise the value itself.
         """
-        if self.is_iterable and not isinstance(value, MonitoredContainer):
+        # the managed container of another instance is not adopted, every instance has a container of its own
+        is_own_container = isinstance(value, MonitoredContainer) and value._owner is obj
+        if self.is_iterable and not is_own_container:
             try:
-                monitored_type = monitored_type_map[type(value)]
+                monitored_type = (
+                    type(value)
+                    if isinstance(value, MonitoredContainer)
+                    else monitored_type_map[type(value)]
+                )
             except KeyError:
                 raise UnMonitoredContainerTypeForDescriptor(
                     self.domain, self.wrapped_field.name, type(value)
